@@ -752,7 +752,65 @@ fn mutate_cdt(rng: &mut Rng, ctx: &mut Ctx, fam: &Fam, counter: &mut u64, split:
     } else if r < 38 {
         // a vertex on an existing constraint edge (or any edge)
         let ce = constraint_edges(ctx);
-        if !ce.is_empty() {
+        if !ce.is_empty() && rng.chance(300) {
+            // a thin triangle at the end of a constraint edge: a vertex S close to the end point B
+            // of a constraint A-B, slightly beside the edge, then a constraint from S to some other
+            // vertex (the cavity of that constraint has border edges at S next to the thin
+            // constrained triangle S-B-A)
+            let &(a, b) = rng.pick(&ce);
+            let (a, b) = if rng.chance(500) { (a, b) } else { (b, a) };
+            let (pa, pb) = (ctx.tri.pos_bits(a), ctx.tri.pos_bits(b));
+            let (pa, pb) = ((val(tag, pa.0), val(tag, pa.1)), (val(tag, pb.0), val(tag, pb.1)));
+            let d = (pb.0 - pa.0, pb.1 - pa.1);
+            let len = (d.0 * d.0 + d.1 * d.1).sqrt();
+            let exact = matches!(fam.name.as_str(), "grid" | "line" | "circle" | "offset");
+            if len > 0.0 && len.is_finite() {
+                let step = if exact { 1.0 } else { len * 0.04 };
+                let (ux, uy) = (d.0 / len, d.1 / len);
+                let side = if rng.chance(500) { 1.0 } else { -1.0 };
+                let k1 = *rng.pick(&[0.5, 1.0, 1.0, 2.0]);
+                let k2 = *rng.pick(&[0.5, 1.0, 1.0]);
+                let mut sp = (pb.0 - ux * step * k1 - uy * side * step * k2, pb.1 - uy * step * k1 + ux * side * step * k2);
+                if exact {
+                    sp = (sp.0.round(), sp.1.round());
+                }
+                let res = ctx.op(ins_op(ctx, sp, *counter));
+                if let Some(h) = res.strip_prefix("ok ").and_then(|x| x.parse::<u64>().ok()) {
+                    let nv2 = ctx.tri.nv() as u64;
+                    // targets on the other side of the line A-B whose segment from S passes just
+                    // beyond the end point B (smallest angle to the ray S->B first); then a random one
+                    let orient = |p: (f64, f64), q: (f64, f64), r: (f64, f64)| (q.0 - p.0) * (r.1 - p.1) - (q.1 - p.1) * (r.0 - p.0);
+                    let os = orient(pa, pb, sp);
+                    let mut cands: Vec<(f64, u64)> = Vec::new();
+                    for c in 0..nv2 {
+                        if c == h || c as usize == a || c as usize == b {
+                            continue;
+                        }
+                        let pc = ctx.tri.pos_bits(c as usize);
+                        let pc = (val(tag, pc.0), val(tag, pc.1));
+                        let oc = orient(pa, pb, pc);
+                        // other side of the line, and B is not on the far side of S->C from A
+                        if os * oc < 0.0 && orient(sp, pc, pb) * orient(sp, pc, pa) > 0.0 {
+                            let (v1, v2) = ((pc.0 - sp.0, pc.1 - sp.1), (pb.0 - sp.0, pb.1 - sp.1));
+                            let cosang = (v1.0 * v2.0 + v1.1 * v2.1) / ((v1.0 * v1.0 + v1.1 * v1.1).sqrt() * (v2.0 * v2.0 + v2.1 * v2.1).sqrt());
+                            cands.push((-cosang, c));
+                        }
+                    }
+                    cands.sort_by(|x, y| x.partial_cmp(y).unwrap_or(std::cmp::Ordering::Equal));
+                    let mut tgts: Vec<u64> = cands.iter().take(3).map(|x| x.1).collect();
+                    if !tgts.is_empty() {
+                        let k = rng.below(tgts.len() as u64) as usize;
+                        tgts = vec![tgts[k]];
+                    }
+                    tgts.push(rng.below(nv2));
+                    for tgt in tgts {
+                        if tgt != h {
+                            ctx.op(vec![s("trycon"), h.to_string(), tgt.to_string()]);
+                        }
+                    }
+                }
+            }
+        } else if !ce.is_empty() {
             let &(a, b) = rng.pick(&ce);
             let (pa, pb) = (ctx.tri.pos_bits(a), ctx.tri.pos_bits(b));
             let (pa, pb) = ((val(tag, pa.0), val(tag, pa.1)), (val(tag, pb.0), val(tag, pb.1)));
@@ -887,6 +945,38 @@ pub fn history(mode: &str, idx: u64, rng: &mut Rng, thorough: bool, timeout_ms: 
     };
     let mut counter = 0u64;
     match mode {
+        // many constraints between random vertex pairs of a point cloud in general position (a few
+        // of them refused): long conflict regions, cavities next to existing constraints
+        "conheavy" => {
+            let (scalar, kind, hint) = instance(rng, &["cdt"], true, &["last", "h16"]);
+            let fam = Fam::choose(rng, &["unif", "unif", "unif", "grid"]);
+            let mut ctx = Ctx::new(&scalar, &kind, &hint, timeout_ms);
+            ctx.header(idx, &scalar, &hint, mode, &fam.label());
+            let n = 12 + rng.below(16);
+            for _ in 0..n {
+                counter += 1;
+                let p = fam.point(rng, &ctx);
+                ctx.op(ins_op(&ctx, p, counter));
+            }
+            let m = 10 + rng.below(16);
+            for _ in 0..m {
+                if ctx.dead {
+                    break;
+                }
+                let nv = ctx.tri.nv() as u64;
+                if nv < 2 {
+                    break;
+                }
+                let (a, b) = (rng.below(nv), rng.below(nv));
+                ctx.op(vec![s("trycon"), a.to_string(), b.to_string()]);
+                if rng.chance(150) {
+                    counter += 1;
+                    let p = fam.point(rng, &ctx);
+                    ctx.op(ins_op(&ctx, p, counter));
+                }
+            }
+            ctx.finish();
+        }
         // plain Delaunay histories: insert / remove / bulk + locate / nn / hull queries
         "dt" | "dtlast" => {
             let hints: &[&str] = if mode == "dtlast" { &["last"] } else { &ALL_HINTS };
